@@ -100,6 +100,8 @@ impl Source {
                 let location = normalize_path(location);
                 let mut paths: Vec<_> = data.keys().map(normalize_path).collect();
                 paths.retain(|path| path.starts_with(&location));
+                #[cfg(feature = "verif-hooks")]
+                crate::verif_hooks::reorder(&mut paths);
 
                 Box::new(paths.into_iter())
             }
@@ -115,6 +117,8 @@ impl Source {
                 let location = normalize_path(location);
                 let mut paths: Vec<_> = data.keys().map(normalize_path).collect();
                 paths.retain(|path| path.starts_with(&location));
+                #[cfg(feature = "verif-hooks")]
+                crate::verif_hooks::reorder(&mut paths);
 
                 Box::new(paths.into_iter().map(ResourceContent::File))
             }
